@@ -114,3 +114,95 @@ fn emit(out: &mut impl Write, tag: &str, s: u32, l: u32, val: &[i64]) {
     }
     writeln!(out).unwrap();
 }
+
+
+/// `hm sites-probe LO HI`: every place of the matcher that normalises a haystack character must see what
+/// `Char::normalize` sees.  For every scalar c in [LO, HI) and every configuration for which c is interesting
+/// (norm(c) != c, or c is a letter with case, or c < 0x250) the one-character haystack [c], and c embedded in
+/// "x c y", are matched against the needle [norm(c)] through all twelve entry points (six algorithms, score-only
+/// and indices) in every representation combination that can hold the strings.  Prints one line per
+/// disagreement: `cfg algo variant shape hrepr nrepr c needle got`.  Nothing printed = all sites agree.
+pub fn sites_probe(lo: u32, hi: u32) {
+    use nucleo_matcher::{Matcher, Utf32Str};
+    let stdout = std::io::stdout();
+    let mut out = std::io::BufWriter::new(stdout.lock());
+    let mut n_calls: u64 = 0;
+    for (name, cfg) in configs() {
+        let mut m = Matcher::new(cfg.clone());
+        for c in lo..hi {
+            let Some(ch) = char::from_u32(c) else { continue };
+            let nc = verif::norm(ch, &cfg);
+            if nc == ch && c >= 0x250 && !(ch.is_uppercase() || ch.is_lowercase()) {
+                continue;
+            }
+            // the needle must itself be normalised for the configuration
+            if verif::norm(nc, &cfg) != nc {
+                continue;
+            }
+            // fillers that cannot be (or normalise to) the needle character
+            let fill: Vec<char> = ['#', '%', '@'].into_iter().filter(|f| *f != nc && *f != ch).collect();
+            let shapes: [(&str, Vec<char>); 5] = [("c", vec![ch]), ("xcy", vec![fill[0], ch, fill[1]]), ("c c", vec![ch, ' ', ch]),
+                ("cc", vec![ch, ch]), ("-c--c-", vec!['-', ch, '-', '-', ch, '-'])];
+            for (shape, hay) in shapes.iter() {
+                let hay_ascii: Option<Vec<u8>> = if hay.iter().all(|x| x.is_ascii()) { Some(hay.iter().map(|&x| x as u8).collect()) } else { None };
+                // two-character needles for the last two shapes (the ASCII prefilter only runs for needles of length >= 2)
+                let two = *shape == "cc" || *shape == "-c--c-";
+                if two && (nc == '-' || ch == '-') {
+                    continue;
+                }
+                let needle = if two { vec![nc, nc] } else { vec![nc] };
+                let needle_ascii: Option<Vec<u8>> = if nc.is_ascii() { Some(needle.iter().map(|&x| x as u8).collect()) } else { None };
+                let mut hviews: Vec<(&str, Utf32Str<'_>)> = vec![("U", Utf32Str::Unicode(hay))];
+                if let Some(b) = &hay_ascii {
+                    hviews.push(("A", Utf32Str::Ascii(b)));
+                }
+                let mut nviews: Vec<(&str, Utf32Str<'_>)> = vec![("U", Utf32Str::Unicode(&needle))];
+                if let Some(b) = &needle_ascii {
+                    nviews.push(("A", Utf32Str::Ascii(b)));
+                }
+                for (hr, hv) in hviews.iter() {
+                    for (nr, nv) in nviews.iter() {
+                        if *hr == "A" && *nr == "U" {
+                            continue; // known finding K1
+                        }
+                        for algo in ["F", "G", "S", "P", "O", "E"] {
+                            // which shapes the kind must accept: everything contains c; anchored kinds only where c is at the edge
+                            let expect = match (algo, *shape) {
+                                ("E", "c") | ("E", "cc") => true,
+                                (_, "cc") => true,
+                                ("F", "-c--c-") | ("G", "-c--c-") => true,
+                                (_, "-c--c-") => false,
+                                ("E", _) => false,
+                                ("P", "xcy") | ("O", "xcy") => false,
+                                _ => true,
+                            };
+                            // exact on "c c" etc. is a genuine non-match; only check the positive expectations and exact negatives
+                            for with_idx in [false, true] {
+                                n_calls += 1;
+                                let mut idx = Vec::new();
+                                let got = match (algo, with_idx) {
+                                    ("F", false) => m.fuzzy_match(*hv, *nv),
+                                    ("F", true) => m.fuzzy_indices(*hv, *nv, &mut idx),
+                                    ("G", false) => m.fuzzy_match_greedy(*hv, *nv),
+                                    ("G", true) => m.fuzzy_indices_greedy(*hv, *nv, &mut idx),
+                                    ("S", false) => m.substring_match(*hv, *nv),
+                                    ("S", true) => m.substring_indices(*hv, *nv, &mut idx),
+                                    ("P", false) => m.prefix_match(*hv, *nv),
+                                    ("P", true) => m.prefix_indices(*hv, *nv, &mut idx),
+                                    ("O", false) => m.postfix_match(*hv, *nv),
+                                    ("O", true) => m.postfix_indices(*hv, *nv, &mut idx),
+                                    ("E", false) => m.exact_match(*hv, *nv),
+                                    (_, _) => m.exact_indices(*hv, *nv, &mut idx),
+                                };
+                                if got.is_some() != expect {
+                                    writeln!(out, "{} {} {} {} {} {} {} {} {}", name, algo, if with_idx { "indices" } else { "score" }, shape.replace(' ', "_"), hr, nr, c, nc as u32, got.is_some() as u8).unwrap();
+                                }
+                            }
+                        }
+                    }
+                }
+            }
+        }
+    }
+    writeln!(out, "# calls {}", n_calls).unwrap();
+}
